@@ -12,7 +12,9 @@ import AL.Gen.Popular
   The scope bookkeeping re-uses AL.Visit (`St`, `Header`, `mkEnv`, …); the expression checker is AL.Sema, the untrusted
   input machine AL.Insecure, lexer / parser AL.Lex / AL.Parse. A diagnostic is (the position of the string it comes from,
   code, arguments): positions inside a string are the subject of AL.Positions. Local actions and local reusable workflows
-  are looked up in a project; the model is the rule for a file linted without one (`FindMetadata` returns nothing).
+  are looked up in a project: what the project says about the reusable workflows a job calls or needs comes in through
+  `ProjView` (computed by AL.ProjCall); with the empty view the model is the rule for a file linted without a project.
+  Local ACTIONS are not looked up (`FindMetadata` of the actions cache returns nothing).
 -/
 namespace AL.RuleExpr
 open AL AL.Ast AL.Sema
@@ -26,12 +28,36 @@ structure Diag where
   args : List String
 deriving Repr, DecidableEq, Inhabited
 
+/-- what a project contributes to the checks of ONE job (computed by AL.ProjCall from what is on disk and from the
+cache of interfaces; everything empty for a file linted without a project) -/
+structure ProjJob where
+  /-- needed job id ↦ type of its `outputs`, when the needed job calls a reusable workflow whose interface is known -/
+  outs : List (String × Ty) := []
+  /-- the declared inputs (id ↦ name, type) of the workflow this job calls, when `checkWorkflowCall` got its interface -/
+  inputs : Option (List (String × (String × Ty))) := none
+
+structure ProjView where
+  /-- id of the visited job ↦ its view -/
+  jobs : List (String × ProjJob) := []
+  /-- `strconv.ParseFloat(v, 64)` succeeds -/
+  isNumber : String → Bool := fun _ => false
+  /-- spec of a local action ↦ the type of its `outputs`, when the project has its metadata (`typeOfActionOutputs`) -/
+  actionOutputs : String → Option Ty := fun _ => none
+
+def ProjView.jobView (p : ProjView) (id : String) : ProjJob :=
+  match p.jobs.find? (·.1 = id) with
+  | some e => e.2
+  | none => {}
+
 /-- the part of the rule's state an expression is checked under -/
 structure Cx where
   lower : String → String
   hdr : Header := ⟨none, none, none⟩
   jobsTy : Option Ty := none
   st : St := St.init
+  proj : ProjView := {}
+  /-- the view of the job being visited -/
+  job : ProjJob := {}
 
 def bytesOf (s : String) : List Nat := s.toUTF8.toList.map (·.toNat)
 
@@ -340,7 +366,8 @@ def checkMatrix (cx : Cx) (isNum : IsNumber) (m : Matrix) : Ty × List Diag :=
 
 /-! ### steps, jobs -/
 
-/-- `typeOfActionOutputs` / `getActionOutputsType` for a file linted without a project -/
+/-- `typeOfActionOutputs` / `getActionOutputsType`: bundled actions from the regenerated table, local actions from the
+project's view -/
 def popularOutputs (spec : String) : Option Ty :=
   match AL.Gen.popularChunks.findSome? (fun ch => ch.find? (·.1 = spec)) with
   | some (_, _, outs, _, skipOutputs) =>
@@ -350,11 +377,11 @@ def popularOutputs (spec : String) : Option Ty :=
 
 def mapOfString : Ty := .obj [] (some .string)
 
-def actionOutputsTy (spec : Option Str) : Ty :=
+def actionOutputsTy (localOuts : String → Option Ty) (spec : Option Str) : Ty :=
   match spec with
   | none => mapOfString
   | some s =>
-    if s.value.startsWith "./" then mapOfString
+    if s.value.startsWith "./" then (localOuts s.value).getD mapOfString
     else if s.value.startsWith "actions/github-script@" then emptyLoose
     else (popularOutputs s.value).getD mapOfString
 
@@ -389,7 +416,7 @@ def visitStep (cx : Cx) (n : Step) : Cx × List Diag :=
     let stepsTy := cx.st.stepsTy.map fun t =>
       let t := if dyn then loosen t else t
       match t with
-      | .obj ps m => .obj (Ty.setProp (cx.lower id.value) (.obj [("conclusion", .string), ("outcome", .string), ("outputs", actionOutputsTy (stepExec cx n.exec).2)] none) ps) m
+      | .obj ps m => .obj (Ty.setProp (cx.lower id.value) (.obj [("conclusion", .string), ("outcome", .string), ("outputs", actionOutputsTy cx.proj.actionOutputs (stepExec cx n.exec).2)] none) ps) m
       | t => t
     ({ cx with st := { cx.st with stepsTy := stepsTy } }, stepDiags cx n ++ d4)
 
@@ -407,8 +434,9 @@ def lookupJob (i : String) : List (String × Job) → Option Job
 def declaredOutputsTy (j : Job) : Ty :=
   .obj ((j.outputs.getD []).foldl (fun ps kv => Ty.setProp kv.1 .string ps) []) none
 
-/-- `calcNeedsType` (a called workflow's outputs are `{string => string}` without a project) -/
-def needsTy (lower : String → String) (jobs : List (String × Job)) (job : Job) : Ty :=
+/-- `calcNeedsType`; `outs`: the outputs of the needed jobs that call a reusable workflow with a known interface
+(`getWorkflowCallOutputsType`) — `{string => string}` for the others -/
+def needsTy (outs : List (String × Ty)) (lower : String → String) (jobs : List (String × Job)) (job : Job) : Ty :=
   .obj ((job.needs.getD []).foldl (fun ps id =>
     let i := lower id.value
     if i = job.id.value then ps
@@ -416,10 +444,38 @@ def needsTy (lower : String → String) (jobs : List (String × Job)) (job : Job
     else match lookupJob i jobs with
       | none => ps
       | some j =>
-        let outs := if j.workflowCall.isNone then declaredOutputsTy j else mapOfString
+        let outs := if j.workflowCall.isNone then declaredOutputsTy j else (Ty.lookup i outs).getD mapOfString
         Ty.setProp i (.obj [("outputs", outs), ("result", .string)] none) ps) []) none
 
-/-- `checkWorkflowCall` without a project: only the strings -/
+/-- the type of the value supplied for an input of a called workflow (`checkWorkflowCall`): by spelling when it has no
+placeholder, the placeholder's type when the value IS one placeholder, else string -/
+def suppliedTy (cx : Cx) (v : Str) (ts : List Ty) : Ty :=
+  match ts with
+  | [] =>
+    let t := String.ofList (AL.Yaml.trimSpace v.value.toList)
+    if t = "null" then .null
+    else if t = "true" || t = "false" then .bool
+    else if cx.proj.isNumber t then .number
+    else .string
+  | [t] => if AL.Yaml.isExprAssigned v.value then t else .string
+  | _ => .string
+
+/-- the typed check of one `with:` entry against the called workflow's declared input -/
+def typedInput (cx : Cx) (u : Str) (kv : String × CallArg) (ts : List Ty) : List Diag :=
+  match cx.job.inputs with
+  | none => []
+  | some ins =>
+    match ins.find? (·.1 = kv.1) with
+    | none => []
+    | some (_, (name, decl)) =>
+      if decl.isAny then []
+      else
+        let ty := suppliedTy cx kv.2.value ts
+        if Ty.assignable decl ty then []
+        else [⟨kv.2.value.pos, "call-input-type", [name, tyStr decl, u.value, tyStr ty]⟩]
+
+/-- `checkWorkflowCall`: the strings, and — when the project knows the called workflow's interface — the types of the
+supplied inputs -/
 def checkWorkflowCall (cx : Cx) (c : Option WorkflowCall) : List Diag :=
   match c with
   | none => []
@@ -428,7 +484,9 @@ def checkWorkflowCall (cx : Cx) (c : Option WorkflowCall) : List Diag :=
     | none => []
     | some u =>
       checkString cx (some u) "" ++
-      ((c.inputs.getD []).flatMap fun kv => checkString cx (some kv.2.value) "jobs.<job_id>.with.<with_id>") ++
+      ((c.inputs.getD []).flatMap fun kv =>
+        let r := checkStrU cx false (some kv.2.value) "jobs.<job_id>.with.<with_id>"
+        r.2 ++ typedInput cx u kv r.1) ++
       ((c.secrets.getD []).flatMap fun kv => checkString cx (some kv.2.value) "jobs.<job_id>.secrets.<secrets_id>")
 
 def runsOnDiags (cx : Cx) (r : Option Runner) : List Diag :=
@@ -485,7 +543,8 @@ def jobMatrix (cx : Cx) (isNum : IsNumber) (n : Job) : Option Ty × List Diag :=
 
 /-- `VisitJobPre`, the steps, `VisitJobPost` -/
 def visitJob (cx0 : Cx) (isNum : IsNumber) (jobs : List (String × Job)) (n : Job) : List Diag :=
-  let cx1 : Cx := { cx0 with st := { cx0.st with needsTy := some (needsTy cx0.lower jobs n) } }
+  let view := cx0.proj.jobView n.id.value
+  let cx1 : Cx := { cx0 with job := view, st := { cx0.st with needsTy := some (needsTy view.outs cx0.lower jobs n) } }
   let mx := jobMatrix cx1 isNum n
   let cx : Cx := match mx.1 with
     | some t => { cx1 with st := { cx1.st with matrixTy := some t } }
@@ -568,8 +627,8 @@ def findCallOutputs : List Ast.Event → Option (List (String × CallOutput))
   | _ :: rest => findCallOutputs rest
 
 /-- the whole rule on one workflow -/
-def rule (lower : String → String) (isNum : IsNumber) (w : Workflow) : List Diag :=
-  let cx0 : Cx := { lower := lower }
+def rule (lower : String → String) (isNum : IsNumber) (w : Workflow) (proj : ProjView := {}) : List Diag :=
+  let cx0 : Cx := { lower := lower, proj := proj }
   let dName := checkString cx0 w.name ""
   let ev := visitEvents cx0 (w.on.getD [])
   let cx := ev.1
